@@ -13,6 +13,7 @@ def rng_choice(case, options):
 
 class C10(object):
     id = 'C10'
+    anchors = ('EquationSolver.SetInitialConditions', 'EquationParser.ParseString', 'Model._ProcessExogenous', 'Model._GenerateInitialConditions', 'EquationSolver.SolveEquation')
     title = 'Exogenous paths, initial conditions and horizon are honoured verbatim'
     rule = ('one case = one equation block (random contraction with lags, aliases, derived variables, constants; '
             'exogenous given as list / tuple / string expression / float scalar; initial conditions on simultaneous, '
